@@ -461,6 +461,20 @@ def binary_records(a):
                 f = cl[3][0][2] if cl[3] and cl[3][0][0] == "struct" else {}
                 if f.get("comparison") != cmp_arg:
                     probs.append("a record carries another operator pair than the one given")
+                # C09: `carries that clause's custom message`: the custom message is the one handed in; the error message is the
+                # comparison's own reason for a not-comparable pair and absent otherwise
+                if f.get("custom_message") != ex.arg_env["_5"]:
+                    probs.append("a record's custom message is not the clause's")
+                msg = f.get("message")
+                if msg is not None and msg[0] == "enum" and msg[1] == "Option":
+                    mp = msg[3].get("Some")
+                    if msg[2] == "1" or (mp is not None and msg[2] not in ("0",)):
+                        mo, mks = _origin(ex, mp) if mp is not None and mp[0] == "opaque" else (None, [])
+                        co_, cks_ = _origin(ex, cur) if cur is not None else (None, [])
+                        if not (mo == co_ and mks == cks_ + ["as ComparisonResult.0", "as NotComparable.0", f".{NC.index('reason')}"]):
+                            probs.append("a record's error message is not the reason of the not-comparable outcome being reported")
+                elif msg is not None:
+                    probs.append("a record's error message has an unexpected shape")
                 frm = f.get("from")
                 fv = frm[3][0] if frm is not None and frm[0] == "variant" and frm[3] else None
                 o, ks = _origin(ex, fv) if fv is not None else (None, [])
@@ -1003,6 +1017,28 @@ def contained_in(a):
         else:
             good = "false"
         bad.append(f"(and {pc_term(p.pc)} (not {good}))")
+    # the difference of the list-in-list case: elements of the LEFT list for which the RIGHT list's `contains` - the slice scan that compares
+    # with the values' own `==` (a string equals a regex it matches, maps compare by content) - says no
+    try:
+        cex = a.exec(r"(?:(?:rules::eval::)?operators::)?contained_in::\{closure#0\}", {"contains": lambda ex, av: ("bool", ex.fresh("Bool", "contains"))},
+                     log=("contains", "get", "eq"), unroll=1, max_paths=50, deepen=False)
+        cbad = []
+        for p in cex.paths:
+            cs = [e for e in p.events if e[0] == "call" and e[1] in ("contains", "get", "eq")]
+            okc = (p.outcome == "return" and len(cs) == 1 and cs[0][1] == "contains" and "core::slice::<impl [" in str(cs[0][5])
+                   and p.ret is not None and p.ret[0] == "bool")
+            cbad.append(f"(and {pc_term(p.pc)} (not {('(= ' + p.ret[1] + ' (not ' + cs[0][3][1] + '))') if okc else 'false'}))")
+        top = mirsmt.find_fn(a.mir, r"(?:(?:rules::eval::)?operators::)?contained_in")
+        chain_ok = ("HashSet" not in top and "BTreeSet" not in top and "hash_set" not in top)
+        cc = a.discharge("operators::contained_in/difference-by-slice-contains", cex, cbad if chain_ok else ["true"],
+                         "`in`, list in list: an element of the left list is in the difference iff the right list's slice `contains` (the scan that "
+                         "uses the values' own ==) does not find it; no hashed / ordered set of values takes part in contained_in")
+        if cc:
+            cc["replay"] = replay_in(a)
+            cc["reproduced"] = cc["replay"].get("reproduced", False)
+            a.candidates.append(cc)
+    except Untranslatable as e:
+        a.ob.items.append({"obligation": "operators::contained_in/difference-by-slice-contains", "describe": str(e), "verdicts": {}, "status": "inconclusive", "model": None})
     c = a.discharge("operators::contained_in/cases", ex, bad,
                     "`in` on one left and one right value (membership tests modelled as arbitrary booleans): list in list-of-lists -> "
                     "Success iff the left list is an element; list in list -> Success iff the computed difference is empty; list in "
@@ -1023,7 +1059,11 @@ def replay_in(a):
              ("L in [1, 2, 3]", "PASS"), ("L in [1, 3]", "FAIL"), ("L not in [1, 3]", "FAIL") if False else ("L[*] in [1, 2]", "PASS"),
              ("L in LL", "PASS"), ("LL[1] in LL", "PASS"), ("L in [[1, 3]]", "FAIL"), ("X in 1", "PASS"), ("X in 2", "FAIL"),
              ("S in \"abc\"", "PASS"), ("S in \"xyz\"", "FAIL"), ("L in 5", "FAIL"), ("X in L", "PASS"), ("X in LL[1]", "FAIL"),
-             ("S in [\"a\", \"b\"]", "PASS"), ("S in [1, 2]", "FAIL")]
+             ("S in [\"a\", \"b\"]", "PASS"), ("S in [1, 2]", "FAIL"),
+             # members that are equal without being identical: a string and a regex it matches, maps in another key order
+             ("N in [/^a/, /^b/]", "PASS"), ("N not in [/^a/, /^b/]", "FAIL"), ("N[*] in [/^a/, /^b/]", "PASS"), ("N in [/^a/]", "FAIL"),
+             ("MS in [{\"q\": 2, \"p\": 1}, {\"p\": 3}]", "PASS"), ("MS in [{\"p\": 3}]", "FAIL"), ("S in [/^b/]", "PASS")]
+    data = '{"X": 1,\n "S": "b", "L": [1, 2], "LL": [[1, 2], [3]], "E": [], "N": ["apple", "bean"], "MS": [{"p": 1, "q": 2}]}\n'
     return a.replay_cases(exe, data, cases)
 
 
